@@ -289,7 +289,29 @@ func (h *hist) actAuthorize(t *rapid.T) {
 		} else if s.M.Registered {
 			h.signGCA(&a)
 		}
-		switch rapid.IntRange(0, 3).Draw(t, "how") {
+		switch rapid.IntRange(0, 4).Draw(t, "how") {
+		case 4:
+			// the signature of a published authorization, kept as it is, under
+			// altered content: the same id with one field changed, the same content
+			// under another id, or a fresh device of the submitter's own
+			if len(live) > 0 && s.M.Registered {
+				src := s.M.Devices[rapid.SampledFrom(live).Draw(t, "borrowFrom")]
+				switch rapid.IntRange(0, 2).Draw(t, "borrowHow") {
+				case 0:
+					a = src
+					a.Capacity++
+				case 1:
+					a = src
+					a.ShortID = id
+					if id == src.ShortID {
+						a.Debt++
+					}
+				}
+				a.Sig = src.Sig
+				ev.Label(h.o.prop + ":auth-borrowed-signature")
+			} else {
+				a.Sig[0] ^= 1 // nothing to borrow from
+			}
 		case 3:
 			// the (r, N-s) twin of a genuine GCA signature - for a live device that
 			// is its own authorization with 256 bits changed by somebody without the key
